@@ -79,39 +79,53 @@ _CC_TUS = ['src/cppparser/cppPreprocessor.cxx', 'src/cppparser/cppFile.cxx', 'sr
 # stub asserts if it were ever reached
 _CUT_HEAP_STRINGS = ['_ZNSt7__cxx1112basic_stringIcSt11char_traitsIcESaIcEE9_M_createERmm',
                      '_ZNSt7__cxx1112basic_stringIcSt11char_traitsIcESaIcEE9_M_mutateEmmPKcm']
-def _cc(hid, tmin, desc, domain_extra, g_quick=0, g_thorough=4):
-    def _b(gmax, ta, cap):
-        return {'defs': {'P_MAX': 0, 'T_MIN': tmin, 'TA_MAX': ta, 'TB_MAX': 1, 'G_MAX': gmax}, 'unwind': 24,
-                'unwindset': {'_ZN15CPPPreprocessor12skip_commentEi.0': 1}, 'cap': 40}
-    return {'id': hid, 'property': 'C05', 'src': 'c05_cpp_comments.cxx', 'entry': 'harness_c05_cpp_comments', 'tus': _CC_TUS,
-            'skip_ctors': ['cppPreprocessor.cxx', 'cppFile.cxx', 'filename.cxx'],
-            # CPPPreprocessor::get, InputFile::get/peek: copies reading a byte array (in the harness, see there)
-            'cut': _CUT_HEAP_STRINGS + ['_ZN15CPPPreprocessor3getEv', '_ZN15CPPPreprocessor9InputFile3getEv', '_ZN15CPPPreprocessor9InputFile4peekEv',
-                                         '_ZN15CPPPreprocessor14skip_c_commentEi',    # never reached: no '*' in the alphabet (asserting stub)
-                                         # std::string::_M_replace: see the harness source
-                                         '_ZNSt7__cxx1112basic_stringIcSt11char_traitsIcESaIcEE10_M_replaceEmmPKcm'],
+_CC_CUT = _CUT_HEAP_STRINGS + [
+    # CPPPreprocessor::get, InputFile::get/peek: copies reading a byte array (in the harness, see there)
+    '_ZN15CPPPreprocessor3getEv', '_ZN15CPPPreprocessor9InputFile3getEv', '_ZN15CPPPreprocessor9InputFile4peekEv',
+    '_ZN15CPPPreprocessor14skip_c_commentEi',    # must not be reached (asserting stub): the inputs contain no /* comment
+    # std::string::_M_replace (`comment->_comment = "//"`): its aliasing test compares unrelated addresses; see the harness
+    '_ZNSt7__cxx1112basic_stringIcSt11char_traitsIcESaIcEE10_M_replaceEmmPKcm']
+def _cc(hid, entry, defs, desc, domain, oracle):
+    return {'id': hid, 'property': 'C05', 'src': 'c05_cpp_comments.cxx', 'entry': entry, 'tus': _CC_TUS,
+            'skip_ctors': ['cppPreprocessor.cxx', 'cppFile.cxx', 'filename.cxx'], 'cut': _CC_CUT,
             'models': ['list.c', 'noinline.c'], 'tuflags': ['-fno-inline'],
-            'desc': desc,
-            'domain': 'inputs <prefix> // <text A> newline <gap> // <text B> newline: prefix of 0..1 bytes over {space a}, texts of ' +
-                      domain_extra + ' bytes over {a space /}, gap of 0..G_MAX bytes over {space newline a} (blank lines, indentation, code between '
-                      'the two comments); the lengths are enumerated by concrete loops inside the query, the bytes are symbolic; read through '
-                      'line-by-line copies of InputFile::get/peek (line and column accounting) over a byte array and lexed by the real '
-                      'skip_comment / skip_cpp_comment, one token per non-blank non-comment byte',
-            'oracle': 'the captured CPPCommentBlocks equal an independent scan of the bytes: the second // line continues the block of the '
-                      'first iff that block ended on the immediately preceding line and only blanks lie in between, otherwise it starts a '
-                      'new block; number of blocks, text, first and last line and column of every block',
-            'bounds': {'quick': _b(g_quick, 1, 300), 'thorough': _b(g_thorough, 3, 2400)}}
+            'desc': desc, 'domain': domain, 'oracle': oracle,
+            'bounds': {'quick': {'defs': defs, 'unwind': 20, 'unwindset': {'_ZN15CPPPreprocessor12skip_commentEi.0': 1}, 'cap': 300}}}
+_STEP_DOMAIN = ('one comment line //<text> newline read by the real skip_comment -> skip_cpp_comment in an arbitrary lexer state: symbolic '
+                'current line L (1..10^6) and column C (1..1000), symbolic flag _last_cpp_comment, previous block absent / a // block '
+                'ending on a symbolic line PL < L / a C-style block ending on PL <= L (then the flag is clear), with symbolic first '
+                'line and column; text of %s bytes, //a //(slash) //(space) //aa (kind of previous block and text enumerated by concrete '
+                'loops inside the query)')
+_STEP_ORACLE = ('the previous block is continued iff it is a // block, the flag is set (only blanks were read since it ended) and it ended '
+                'on the immediately preceding line (PL == L - 1): then its text grows by this line, it ends on L and nothing else '
+                'changes; otherwise a new block {first = last = L, column C, text "//<text>\\n"} is appended and the previous one is left '
+                'alone; afterwards the flag is set and the newline is handed back')
+_PREV = ('no previous block', 'a previous // block', 'a previous C-style block')
 HARNESSES += [
- _cc('c05_cpp_comments', 0, 'capture of // comment blocks (CPPPreprocessor::skip_cpp_comment under the real skip_comment): which // lines '
-     'form one block; text, column and line span of every block', '0..TA_MAX / 0..1'),
- _cc('c05_cpp_comments_rest', 1, 'as c05_cpp_comments without empty // comments (a // directly followed by the end of its line)',
-     '1..TA_MAX / 1'),
+ _cc('c05_cpp_comment_step_p%d' % k, 'harness_c05_cpp_comment_step', {'T_MIN': 1, 'T_MAX': 2, 'PREV_FROM': k, 'PREV_TO': k},
+     'capture of // comment blocks, step 1 of an induction over the input bytes: one // line (CPPPreprocessor::skip_cpp_comment under the '
+     'real skip_comment) continues the previous block or starts a new one; ' + _PREV[k],
+     _STEP_DOMAIN % '1..2' + '; this entry: ' + _PREV[k], _STEP_ORACLE) for k in range(3)
+] + [
+ _cc('c05_cpp_comment_empty', 'harness_c05_cpp_comment_step', {'T_MIN': 0, 'T_MAX': 0},
+     'as c05_cpp_comment_step for an EMPTY comment (a // directly followed by the end of its line, e.g. the blank line of a // paragraph)',
+     _STEP_DOMAIN % '0', _STEP_ORACLE),
+ _cc('c05_comment_flag', 'harness_c05_comment_flag', {},
+     'capture of // comment blocks, step 2 of the induction: what the flag _last_cpp_comment means -- one byte that starts no comment '
+     'handed to the real CPPPreprocessor::skip_comment',
+     'symbolic byte c0 (1..255, not CR) followed by a symbolic byte c1 such that c0 c1 starts no comment; symbolic flag; one // block in the list',
+     'the byte is handed back, nothing else is consumed, no block is touched, and the flag stays set iff it was set and the byte is '
+     'blank (space, tab, newline, VT, FF): code between two // comments, a lone / included, clears it'),
 ]
 
 PROPERTY_INFO = {'C05': {'level': 'model_checking',
-         'explanation': 'bounded symbolic execution (CBMC) of the real wrapper-record construction and comment attachment code lowered from /repo',
+         'explanation': 'bounded symbolic execution (CBMC) of the real wrapper-record construction, overload-identity (signature) and comment '
+                        'capture / attachment code lowered from /repo',
          'outside': 'names, scoping, base lists, cast availability, property/sequence records and prototypes computed from the '
-                    "parser's object graph by get_type/get_function/define_struct_type; comment capture by the lexer",
+                    "parser's object graph by get_type/get_function/define_struct_type; signatures of functions with more than one "
+                    'parameter, class/typedef/array parameter types; capture of /* */ comments; // comments at the end of an included file '
+                    'without a final newline; the whole-input composition of the two comment-capture step harnesses is an induction '
+                    'argument stated in harness/c05_cpp_comments.cxx, not a single query',
          'assumptions': []}}
 
 NOT_APPLICABLE = {}
